@@ -443,6 +443,14 @@ func runC12(run *mc.Run) int {
 		}
 		gen(nil)
 	}
+	// (2c) records that begin with bytes a text layer may think are not content: byte-order marks, ESC, a syslog
+	// priority, a gzip header, the CEE cookie, comment and escape characters - alone, doubled, leading and trailing
+	for _, m := range []string{"\xef\xbb\xbf", "\xff\xfe", "\xfe\xff", "\x1f\x8b", "\x1b[0m", "<13>", "@cee:", "#", "\\", "\x7f", "\xc2\x85", "\xe2\x80\xa8"} {
+		stream := m + "\n" + m + "x\n" + m + m + "y\n" + "a" + m + "\n" + " " + m + "z\n" + m
+		for _, cs := range []int{1, 2, len(stream)} {
+			emit(job{stream: stream, chunks: chunkBy(stream, cs), delim: '\n', class: "magic-prefix"})
+		}
+	}
 	// (3d) a consumer that falls far behind: 300 / 1 200 / 5 000 short records arrive in one write while the first
 	// callback takes 1.5 s (longer than any patience a read-ahead queue might have): every record still arrives
 	for _, nrec := range []int{300, 1200, 5000} {
